@@ -104,6 +104,7 @@ fn one_stream(ctx: &Ctx, acc: &mut Acc, l: L, lang: &text2num::Language, syms: &
 pub fn run(tier: Tier) -> i32 {
     let ctx = Ctx::new("C06", tier);
     let (kf, kc, kdeep) = tier.pick((2usize, 4usize, 0usize), (3, 5, 6));
+    let rmax = tier.pick(60usize, 600usize);
     let mut total = Acc::new();
     let mut sizes = vec![];
     for l in langs::ALL {
@@ -126,12 +127,14 @@ pub fn run(tier: Tier) -> i32 {
             });
             total.merge(c);
         }
+        // long streams: every pattern of <= 2 class symbols repeated r times, every r up to the bound
+        total.merge(explore::all_repetitions(&cls, 2, 2..=rmax, |syms, acc| one_stream(&ctx, acc, l, &lang, syms, false)));
         total.sample(json!({"lang": l.code(), "stream": cls.iter().take(4).collect::<Vec<_>>()}));
     }
     let cov = json!({
         "exhaustive": true,
         "rule": "every token stream of length <= k over the alphabet, through find_numbers and find_numbers_iter, at every threshold of T; every reported occurrence is checked; non-trivial = streams with at least one occurrence at threshold 0",
-        "bounds": {"sigma_full_depth": kf, "sigma_cls_depth": kc, "core10_depth": kdeep, "case_renderings_on_cls": ["lower", "UPPER", "Title"]},
+        "bounds": {"sigma_full_depth": kf, "sigma_cls_depth": kc, "core10_depth": kdeep, "long_streams": {"pattern_depth": 2, "repetitions_up_to": rmax}, "case_renderings_on_cls": ["lower", "UPPER", "Title"]},
         "thresholds": T.iter().map(|t| thr_name(*t)).collect::<Vec<_>>(),
         "alphabets": sizes,
     });
